@@ -79,6 +79,10 @@ def main():
             name = os.path.basename(os.path.dirname(mf))
             if ids and meta["property"] not in ids:
                 continue
+            if "--only" in args and args[args.index("--only") + 1] not in name:
+                continue
+            if "--new" in args and any(k.startswith(f"seeded-{name}@") for k in results):
+                continue
             tag = f"seeded-{name}"
             d = scratch(tag)
             try:
